@@ -374,3 +374,855 @@ Proof.
     + apply IHl in H. intro Q. apply N1. apply H. exact Q.
     + unfold ret in H. injection H as ? ?; subst. exact N1.
 Qed.
+
+(* ================================================================ *)
+(** * The invariant carried through the statement parser             *)
+
+(* the alwaysTerms flags the parser stores are the declarative notion *)
+Fixpoint flags_ok_s (s : stmt) : bool :=
+  match s with
+  | SIf brs els => forallb (fun cb => flags_ok_b (snd cb)) brs && match els with Some e => flags_ok_b e | None => true end
+  | SWhile _ b | SFor _ _ b | SFunc _ _ _ b | SOn _ _ b => flags_ok_b b
+  | _ => true
+  end
+with flags_ok_b (b : block) : bool :=
+  match b with Block l t => forallb flags_ok_s l && Bool.eqb t (existsb stmt_term l) end.
+
+Definition good (k : fkind) (l : bool) (st : stmt) : Prop :=
+  stmt_ok k l st = true /\ flags_ok_s st = true /\ (l = false -> stmt_term st = stmt_returns st) /\
+  (k = KTop -> stmt_returns st = false).
+Definition goodb (k : fkind) (l : bool) (b : block) : Prop :=
+  block_ok k l b = true /\ flags_ok_b b = true /\ (l = false -> block_term b = block_returns b) /\
+  (k = KTop -> block_returns b = false).
+
+Lemma flags_block b : flags_ok_b b = true -> block_terms b = block_term b.
+Proof. destruct b as [l t]. simpl. intro H. apply andb_true_iff in H as [_ H]. apply Bool.eqb_prop in H. exact H. Qed.
+
+Lemma flags_always_terms st : flags_ok_s st = true -> always_terms st = stmt_term st.
+Proof.
+  destruct st; simpl; try reflexivity. destruct els as [e|]; [|reflexivity].
+  intro H. apply andb_true_iff in H as [Hb He]. rewrite (flags_block e He). f_equal.
+  induction branches as [|[c b] brs IH]; [reflexivity|]. simpl in *.
+  apply andb_true_iff in Hb as [H1 H2]. rewrite (flags_block b H1), (IH H2). reflexivity.
+Qed.
+
+Lemma no_dead_app l st : no_dead (l ++ [st]) = no_dead l && (if existsb stmt_term l then is_empty_stmt st else true).
+Proof.
+  induction l as [|x l IH]; simpl; [destruct (stmt_term st); reflexivity|].
+  rewrite IH. rewrite forallb_app. simpl.
+  destruct (stmt_term x), (forallb is_empty_stmt l), (no_dead l), (existsb stmt_term l), (is_empty_stmt st); reflexivity.
+Qed.
+
+(* ---- what the invariant looks at in the parser state: the frames of the scope chain ---- *)
+Definition frame_of (sc : scope) : bool * bool * bool := (sc_ret sc, sc_retval sc, sc_loop sc).
+Definition frames (s : pst) : list (bool * bool * bool) := map frame_of (scs s).
+Definition fr_loop (fs : list (bool * bool * bool)) : bool := existsb (fun f => snd f) fs.
+Definition fr_kind (fs : list (bool * bool * bool)) : fkind :=
+  match fs with
+  | (true, true, _) :: _ => KFun
+  | (true, false, _) :: _ => KProc
+  | _ => KTop
+  end.
+Definition serrs (s : pst) : list (perr * nat) := errs (cs s).
+
+Lemma in_loop_frames s : in_loop s = fr_loop (frames s).
+Proof. unfold in_loop, fr_loop, frames. induction (scs s) as [|sc l IH]; simpl; [reflexivity|]. rewrite IH. reflexivity. Qed.
+Lemma has_ret_frames s : has_ret s = match fr_kind (frames s) with KTop => false | _ => true end.
+Proof. unfold has_ret, fr_kind, frames. destruct (scs s) as [|sc l]; simpl; [reflexivity|]. unfold frame_of. destruct (sc_ret sc), (sc_retval sc); reflexivity. Qed.
+Lemma ret_value_frames s : has_ret s = true -> ret_value s = match fr_kind (frames s) with KFun => true | _ => false end.
+Proof. unfold has_ret, ret_value, fr_kind, frames. destruct (scs s) as [|sc l]; simpl; [discriminate|]. unfold frame_of. intros ->. destruct (sc_retval sc); reflexivity. Qed.
+
+(* ---- state helpers: errors only grow, frames change only by push / pop ---- *)
+Lemma serrs_upd f s : serrs (upd f s) = errs (f (cs s)).
+Proof. reflexivity. Qed.
+Lemma serrs_adv s : serrs (adv s) = serrs s.
+Proof. unfold adv. rewrite serrs_upd. apply errs_advance. Qed.
+Lemma errs_apnl_loop : forall f c, errs (apnl_loop f c) = errs c.
+Proof. induction f as [|f IH]; intro c; simpl; [reflexivity|]. destruct (cur_t c); rewrite ?IH, ?errs_advance; reflexivity. Qed.
+Lemma serrs_apnl s : serrs (apnl s) = serrs s.
+Proof. unfold apnl. rewrite serrs_upd. apply errs_apnl_loop. Qed.
+Lemma serrs_serr_at k n s : serrs (serr_at k n s) = (E_stmt k, n) :: serrs s.
+Proof. reflexivity. Qed.
+Lemma serrs_serr k s : serrs (serr k s) = (E_stmt k, pos s) :: serrs s.
+Proof. reflexivity. Qed.
+Lemma serrs_with_scs s l : serrs (with_scs s l) = serrs s.
+Proof. reflexivity. Qed.
+Lemma serrs_scope_set n p s : serrs (scope_set n p s) = serrs s.
+Proof. unfold scope_set. destruct (str_eqb _ _); [reflexivity|]. destruct (scs s); reflexivity. Qed.
+Lemma serrs_mark n s : serrs (mark n s) = serrs s.
+Proof. reflexivity. Qed.
+Lemma serrs_push_scope a b c s : serrs (push_scope a b c s) = serrs s.
+Proof. reflexivity. Qed.
+Lemma serrs_push_inherit b s : serrs (push_inherit b s) = serrs s.
+Proof. reflexivity. Qed.
+Lemma serrs_pop_scope s : serrs (pop_scope s) = serrs s.
+Proof. reflexivity. Qed.
+Lemma serrs_ty_err_here site s : serrs (ty_err_here site s) = (E_type site, pos s) :: serrs s.
+Proof. reflexivity. Qed.
+Lemma cs_fold_mark l : forall s0, cs (fold_right mark s0 l) = cs s0.
+Proof. induction l; intro; simpl; auto. Qed.
+Lemma serrs_collect s c : serrs (collect s c) = errs c.
+Proof. unfold collect. rewrite serrs_upd. simpl. rewrite cs_fold_mark. reflexivity. Qed.
+
+Lemma frames_with_cs s c : frames (with_cs s c) = frames s.
+Proof. reflexivity. Qed.
+Lemma frames_upd f s : frames (upd f s) = frames s.
+Proof. reflexivity. Qed.
+Lemma frames_adv s : frames (adv s) = frames s.
+Proof. reflexivity. Qed.
+Lemma frames_apnl s : frames (apnl s) = frames s.
+Proof. reflexivity. Qed.
+Lemma frames_serr_at k n s : frames (serr_at k n s) = frames s.
+Proof. reflexivity. Qed.
+Lemma frames_serr k s : frames (serr k s) = frames s.
+Proof. reflexivity. Qed.
+Lemma frames_assert_eol s : frames (assert_eol s) = frames s.
+Proof. unfold assert_eol. destruct (is_at_eol _); reflexivity. Qed.
+Lemma frames_passert t s : frames (snd (passert t s)) = frames s.
+Proof. unfold passert. destruct (assert_token t (cs s)); reflexivity. Qed.
+Lemma frames_scope_set n p s : frames (scope_set n p s) = frames s.
+Proof. unfold scope_set. destruct (str_eqb _ _); [reflexivity|]. unfold frames. destruct (scs s) eqn:Q; simpl; rewrite ?Q; reflexivity. Qed.
+Lemma frames_mark_scopes n : forall l, map frame_of (mark_scopes n l) = map frame_of l.
+Proof. induction l as [|sc l IH]; simpl; [reflexivity|]. destruct (has_var n (sc_vars sc)); simpl; [reflexivity|]. rewrite IH. reflexivity. Qed.
+Lemma frames_mark n s : frames (mark n s) = frames s.
+Proof. unfold mark, frames. simpl. apply frames_mark_scopes. Qed.
+Lemma frames_fold_mark l : forall s0, frames (fold_right mark s0 l) = frames s0.
+Proof. induction l as [|x l IH]; intro s0; simpl; [reflexivity|]. rewrite frames_mark. apply IH. Qed.
+Lemma frames_collect s c : frames (collect s c) = frames s.
+Proof. unfold collect. rewrite frames_upd, frames_fold_mark. reflexivity. Qed.
+Lemma frames_push_scope a b c s : frames (push_scope a b c s) = (a, b, c) :: frames s.
+Proof. reflexivity. Qed.
+Lemma frames_pop_scope s : frames (pop_scope s) = tl (frames s).
+Proof. unfold pop_scope, frames. simpl. destruct (scs s) eqn:Q; reflexivity. Qed.
+Lemma frames_ty_err_here site s : frames (ty_err_here site s) = frames s.
+Proof. reflexivity. Qed.
+Lemma frames_fold_serr {X} (f : X -> nat) k (l : list X) : forall s,
+  frames (fold_left (fun s v => serr_at k (f v) s) l s) = frames s.
+Proof. induction l as [|x l IH]; intro s; simpl; [reflexivity|]. rewrite IH. reflexivity. Qed.
+Lemma frames_validate_scope s : frames (validate_scope s) = frames s.
+Proof. unfold validate_scope. destruct (scs s) eqn:Q; [reflexivity|]. apply frames_fold_serr. Qed.
+Lemma serrs_fold_serr {X} (f : X -> nat) k (l : list X) : forall s,
+  serrs (fold_left (fun s v => serr_at k (f v) s) l s) = [] -> serrs s = [].
+Proof. induction l as [|x l IH]; intro s; simpl; [auto|]. intro H. apply IH in H. discriminate H. Qed.
+Lemma serrs_validate_scope s : serrs (validate_scope s) = [] -> serrs s = [].
+Proof. unfold validate_scope. destruct (scs s); [auto|]. apply serrs_fold_serr. Qed.
+Lemma frames_validate_var_decl B n p a s : frames (snd (validate_var_decl B n p a s)) = frames s.
+Proof. unfold validate_var_decl. repeat (destruct (_ : bool); try reflexivity). Qed.
+Lemma serrs_validate_var_decl B n p a s ok s' :
+  validate_var_decl B n p a s = (ok, s') -> serrs s' = [] -> ok = true /\ s' = s.
+Proof.
+  unfold validate_var_decl.
+  repeat (match goal with |- context[if ?b then _ else _] => destruct b end;
+          try (intro H; injection H as ? ?; subst; intro Q; discriminate Q)).
+  intro H; injection H as ? ?; subst. auto.
+Qed.
+Lemma passert_ne t s ok s' : passert t s = (ok, s') -> serrs s' = [] -> ok = true /\ s' = s.
+Proof.
+  unfold passert. destruct (assert_token t (cs s)) as [o c] eqn:A. intro H; injection H as ? ?; subst.
+  unfold serrs; simpl. intro Q. destruct (assert_token_ne _ _ _ _ A Q); subst. split; [reflexivity|]. destruct s; reflexivity.
+Qed.
+Lemma assert_eol_ne s : serrs (assert_eol s) = [] -> assert_eol s = s /\ is_at_eol (cs s) = true.
+Proof. unfold assert_eol. destruct (is_at_eol (cs s)); [auto|]. intro Q. discriminate Q. Qed.
+
+#[local] Hint Rewrite serrs_adv serrs_apnl serrs_serr_at serrs_serr serrs_with_scs serrs_scope_set serrs_mark
+  serrs_push_scope serrs_push_inherit serrs_pop_scope serrs_ty_err_here serrs_collect : serrs.
+#[local] Hint Rewrite frames_with_cs frames_upd frames_adv frames_apnl frames_serr_at frames_serr frames_assert_eol
+  frames_passert frames_scope_set frames_mark frames_collect frames_push_scope frames_pop_scope frames_ty_err_here
+  frames_validate_scope frames_validate_var_decl : frames.
+
+(* ================================================================ *)
+(** * Soundness of the statement parser w.r.t. the rules             *)
+
+(* SN s s': if s' is error free so was s, and the scope frames are unchanged *)
+Definition SN (s s' : pst) : Prop := serrs s' = [] -> serrs s = [] /\ frames s' = frames s.
+
+Lemma SN_refl s : SN s s.
+Proof. intro; auto. Qed.
+Lemma SN_trans a b c : SN a b -> SN b c -> SN a c.
+Proof. intros H1 H2 Q. destruct (H2 Q) as [Q2 F2]. destruct (H1 Q2) as [Q1 F1]. split; [exact Q1|congruence]. Qed.
+
+Section StmtSound.
+Variable B : benv.
+
+Lemma expr_call_sn {A} (f : env -> nat -> pstate -> res A) s a s' :
+  (forall E fuel c x c', f E fuel c = Some (x, c') -> NE c c') ->
+  expr_call B f s = Ok a s' -> SN s s'.
+Proof.
+  intros Hf H. unfold expr_call in H.
+  destruct (f (env_of B s) (efuel (cs s)) (cs s)) as [[x c]|] eqn:P; [|discriminate H].
+  injection H as ? ?; subst. apply Hf in P. intro Q. rewrite serrs_collect in Q. split; [apply P; exact Q|apply frames_collect].
+Qed.
+
+Lemma p_toplevel_sn s a s' : p_toplevel B s = Ok a s' -> SN s s'.
+Proof. apply expr_call_sn. intros E fuel c x c' H. eapply toplevel_ne; [|exact H]. apply (expr_ne E fuel). Qed.
+Lemma p_expr_list_sn s a s' : p_expr_list B s = Ok a s' -> SN s s'.
+Proof. apply expr_call_sn. intros E fuel c x c' H. eapply expr_list_ne; [|exact H]. apply (expr_ne E fuel). Qed.
+Lemma p_func_call_sn nil s a s' : p_func_call B nil s = Ok a s' -> SN s s'.
+Proof. apply expr_call_sn. intros E fuel c x c' H. eapply func_call_ne; [|exact H]. apply (expr_ne E fuel). Qed.
+Lemma p_index_sn left s a s' : p_index B left s = Ok a s' -> SN s s'.
+Proof. apply expr_call_sn. intros E fuel c x c' H. eapply index_or_slice_ne; [|exact H]. apply (expr_ne E fuel). Qed.
+Lemma p_dot_sn left s a s' : p_dot B left s = Ok a s' -> SN s s'.
+Proof. apply expr_call_sn. intros E fuel c x c' H. eapply dot_ne; exact H. Qed.
+Lemma p_type_sn s a s' : p_type B s = Ok a s' -> SN s s'.
+Proof. apply expr_call_sn. intros E fuel c x c' H. eapply parse_type_ne; exact H. Qed.
+
+(* simple state transformers as SN facts *)
+Lemma SN_adv s : SN s (adv s).
+Proof. intro Q. autorewrite with serrs frames in *. auto. Qed.
+Lemma SN_apnl s : SN s (apnl s).
+Proof. intro Q. autorewrite with serrs frames in *. auto. Qed.
+Lemma SN_assert_eol s : SN s (assert_eol s).
+Proof. intro Q. destruct (assert_eol_ne s Q) as [E _]. rewrite E in *. auto. Qed.
+Lemma SN_passert t s : SN s (snd (passert t s)).
+Proof. intro Q. destruct (passert t s) as [ok s'] eqn:A. simpl in *. destruct (passert_ne _ _ _ _ A Q); subst. auto. Qed.
+Lemma SN_scope_set n p s : SN s (scope_set n p s).
+Proof. intro Q. autorewrite with serrs frames in *. auto. Qed.
+Lemma SN_mark n s : SN s (mark n s).
+Proof. intro Q. autorewrite with serrs frames in *. auto. Qed.
+Lemma SN_validate_scope s : SN s (validate_scope s).
+Proof. intro Q. split; [apply serrs_validate_scope; exact Q|apply frames_validate_scope]. Qed.
+Lemma SN_vvd n p a s : SN s (snd (validate_var_decl B n p a s)).
+Proof. intro Q. destruct (validate_var_decl B n p a s) as [ok s'] eqn:V. simpl in *. destruct (serrs_validate_var_decl _ _ _ _ _ _ _ V Q); subst. auto. Qed.
+Lemma SN_finish_end s : SN s (finish_end s).
+Proof.
+  unfold finish_end. eapply SN_trans; [|apply SN_apnl]. eapply SN_trans; [|apply SN_assert_eol].
+  eapply SN_trans; [|apply SN_adv]. apply SN_passert.
+Qed.
+Lemma SN_err k n s x : SN x (serr_at k n s).
+Proof. intro Q. discriminate Q. Qed.
+Lemma SN_err' k s x : SN x (serr k s).
+Proof. intro Q. discriminate Q. Qed.
+
+(* statements without sub-structure satisfy the invariant trivially *)
+Lemma good_plain k l st :
+  match st with SEmpty | STypedDecl _ _ | SInferredDecl _ _ | SAssign _ _ | SCallStmt _ => True | _ => False end -> good k l st.
+Proof. destruct st; intro H; try contradiction; repeat split; reflexivity. Qed.
+
+Definition snd_s (s : pst) (r : option stmt) (s' : pst) : Prop :=
+  serrs s' = [] -> serrs s = [] /\ frames s' = frames s /\
+  (forall st, r = Some st -> good (fr_kind (frames s)) (fr_loop (frames s)) st).
+
+Lemma snd_s_of_SN s s' r :
+  SN s s' -> (forall st, r = Some st -> forall k l, good k l st) -> snd_s s r s'.
+Proof. intros H G Q. destruct (H Q) as [Q1 F1]. split; [exact Q1|]. split; [exact F1|]. intros st E. apply G. exact E. Qed.
+
+Lemma typed_decl_sn s d s' : parse_typed_decl B s = Ok d s' -> SN s s'.
+Proof.
+  unfold parse_typed_decl. intro H.
+  destruct (p_type B (adv (adv (snd (passert T_IDENT s))))) as [t s2| |] eqn:P; try discriminate H.
+  apply p_type_sn in P.
+  assert (N : SN s (adv (adv (snd (passert T_IDENT s))))).
+  { eapply SN_trans; [|apply SN_adv]. eapply SN_trans; [|apply SN_adv]. apply SN_passert. }
+  destruct t; injection H as ? ?; subst; [eapply SN_trans; eassumption|apply SN_err].
+Qed.
+
+Lemma typed_decl_stmt_sound s r s' : parse_typed_decl_stmt B s = Ok r s' -> snd_s s r s'.
+Proof.
+  unfold parse_typed_decl_stmt. intro H.
+  destruct (parse_typed_decl B s) as [[[name dpos] t] s1| |] eqn:P; try discriminate H. apply typed_decl_sn in P.
+  injection H as ? ?; subst. apply snd_s_of_SN; [|intros st E k l; injection E as <-; apply good_plain; exact I].
+  eapply SN_trans; [exact P|]. eapply SN_trans; [|apply SN_apnl].
+  destruct t; [|apply SN_refl].
+  destruct (validate_var_decl B name dpos false s1) as [ok s2] eqn:V.
+  assert (N2 : SN s1 s2) by (pose proof (SN_vvd name dpos false s1) as X; rewrite V in X; exact X).
+  destruct ok; [|exact N2]. eapply SN_trans; [exact N2|]. eapply SN_trans; [apply SN_scope_set|apply SN_assert_eol].
+Qed.
+
+Lemma inferred_decl_stmt_sound s r s' : parse_inferred_decl_stmt B s = Ok r s' -> snd_s s r s'.
+Proof.
+  unfold parse_inferred_decl_stmt. intro H.
+  set (s1 := adv (adv (snd (passert T_IDENT s)))) in H.
+  assert (N1 : SN s s1).
+  { unfold s1. eapply SN_trans; [|apply SN_adv]. eapply SN_trans; [|apply SN_adv]. apply SN_passert. }
+  destruct (p_toplevel B s1) as [v s2| |] eqn:P; try discriminate H. apply p_toplevel_sn in P.
+  destruct v as [t|].
+  - destruct (tyerr_s B TS_decl_none t (pos s2)).
+    + injection H as ? ?; subst. intro Q. autorewrite with serrs in Q. discriminate Q.
+    + destruct (validate_var_decl B _ _ false s2) as [ok s3] eqn:V.
+      assert (N3 : SN s2 s3) by (pose proof (SN_vvd (tlit (cur (cs (snd (passert T_IDENT s))))) (pos (snd (passert T_IDENT s))) false s2) as X; rewrite V in X; exact X).
+      destruct ok; injection H as ? ?; subst;
+        (apply snd_s_of_SN; [|intros st E k l; try discriminate E; injection E as <-; apply good_plain; exact I]).
+      * eapply SN_trans; [exact N1|]. eapply SN_trans; [exact P|]. eapply SN_trans; [exact N3|].
+        eapply SN_trans; [|apply SN_apnl]. eapply SN_trans; [apply SN_scope_set|apply SN_assert_eol].
+      * eapply SN_trans; [exact N1|]. eapply SN_trans; [exact P|]. eapply SN_trans; [exact N3|]. apply SN_apnl.
+  - injection H as ? ?; subst. intro Q. autorewrite with serrs in Q. discriminate Q.
+Qed.
+
+Lemma assign_target_loop_sn : forall fuel tok n s r s', assign_target_loop B fuel tok n s = Ok r s' -> SN s s'.
+Proof.
+  induction fuel as [|f IH]; intros tok n s r s' H; [discriminate|]. cbn [assign_target_loop] in H.
+  destruct (ct s); try (injection H as ? ?; subst; apply SN_refl).
+  - destruct (tyerr_s B _ _ _); [injection H as ? ?; subst; intro Q; discriminate Q|].
+    destruct (p_index B n s) as [x s1| |] eqn:P; try discriminate H. apply p_index_sn in P.
+    destruct x; [apply IH in H; eapply SN_trans; eassumption|injection H as ? ?; subst; exact P].
+  - destruct (p_dot B n s) as [x s1| |] eqn:P; try discriminate H. apply p_dot_sn in P.
+    destruct x; [apply IH in H; eapply SN_trans; eassumption|injection H as ? ?; subst; exact P].
+Qed.
+
+Lemma assign_target_sn s r s' : parse_assign_target B s = Ok r s' -> SN s s'.
+Proof.
+  unfold parse_assign_target. intro H.
+  destruct (str_eqb _ _); [injection H as ? ?; subst; apply SN_err|].
+  destruct (negb _); [injection H as ? ?; subst; apply SN_err|].
+  apply assign_target_loop_sn in H. eapply SN_trans; [apply SN_adv|]. eapply SN_trans; [apply SN_mark|exact H].
+Qed.
+
+Lemma assign_stmt_sound s r s' : parse_assign_stmt B s = Ok r s' -> snd_s s r s'.
+Proof.
+  unfold parse_assign_stmt. intro H.
+  destruct (is_func _ s); [injection H as ? ?; subst; intro Q; autorewrite with serrs in Q; discriminate Q|].
+  destruct (parse_assign_target B s) as [tg s1| |] eqn:P; try discriminate H. apply assign_target_sn in P.
+  destruct tg as [target|].
+  - destruct (p_toplevel B (adv (snd (passert T_ASSIGN s1)))) as [v s3| |] eqn:P2; try discriminate H. apply p_toplevel_sn in P2.
+    assert (N : SN s s3).
+    { eapply SN_trans; [exact P|]. eapply SN_trans; [apply SN_passert|]. eapply SN_trans; [apply SN_adv|exact P2]. }
+    destruct v as [value|]; injection H as ? ?; subst;
+      (apply snd_s_of_SN; [|intros st E k l; try discriminate E; injection E as <-; apply good_plain; exact I]).
+    + eapply SN_trans; [exact N|]. eapply SN_trans; [|apply SN_apnl]. eapply SN_trans; [|apply SN_assert_eol].
+      destruct (tyerr_s B _ _ _); [intro Q; discriminate Q|apply SN_refl].
+    + eapply SN_trans; [exact N|apply SN_apnl].
+  - injection H as ? ?; subst. apply snd_s_of_SN; [|intros st E; discriminate E]. eapply SN_trans; [exact P|apply SN_apnl].
+Qed.
+
+Lemma call_stmt_sound s r s' : parse_call_stmt B s = Ok r s' -> snd_s s r s'.
+Proof.
+  unfold parse_call_stmt. intro H.
+  destruct (lookup_fn _ _) as [fi|]; [|discriminate H].
+  destruct (p_func_call B (fi_nil fi) s) as [x s1| |] eqn:P; try discriminate H. apply p_func_call_sn in P.
+  destruct x; [|discriminate H]. injection H as ? ?; subst.
+  apply snd_s_of_SN; [|intros st E k l; injection E as <-; apply good_plain; exact I].
+  eapply SN_trans; [exact P|]. eapply SN_trans; [apply SN_assert_eol|apply SN_apnl].
+Qed.
+
+Lemma break_stmt_sound s r s' : parse_break_stmt s = Ok r s' -> snd_s s r s'.
+Proof.
+  unfold parse_break_stmt. intro H. injection H as ? ?; subst. intro Q.
+  destruct (in_loop s) eqn:L.
+  - autorewrite with serrs in Q. destruct (assert_eol_ne _ Q) as [E _]. rewrite E in *. autorewrite with serrs frames in *.
+    split; [exact Q|]. split; [reflexivity|].
+    intros st Est. injection Est as <-. rewrite <- in_loop_frames, L. split; [reflexivity|]. split; [reflexivity|]. split; [intro X; discriminate X|reflexivity].
+  - autorewrite with serrs in Q. destruct (assert_eol_ne _ Q) as [E _]. rewrite E in *. autorewrite with serrs in Q. discriminate Q.
+Qed.
+
+Lemma return_tail s s2 (v : option tree) (bare : bool) rv :
+  SN s s2 ->
+  snd_s s (Some (SReturn v))
+    (apnl (if negb (has_ret s2) then serr_at K_return_not_allowed rv s2
+           else match v with
+                | Some t => if tyerr_s B TS_return_type t rv then upd (add_err_at (E_type TS_return_type) rv) s2 else s2
+                | None => if bare then (if ret_value s2 then serr_at K_bare_return rv s2 else s2)
+                          else serr_at K_return_value_failed rv s2
+                end)).
+Proof.
+  intros N2 Q. autorewrite with serrs in Q.
+  destruct (has_ret s2) eqn:HR; cbn [negb] in Q; [|discriminate Q].
+  assert (Q2 : serrs s2 = []).
+  { destruct v; [destruct (tyerr_s B _ _ _); [discriminate Q|exact Q]|].
+    destruct bare; [destruct (ret_value s2); [discriminate Q|exact Q]|discriminate Q]. }
+  destruct (N2 Q2) as [Q0 F2]. split; [exact Q0|]. split.
+  { cbn [negb]. autorewrite with frames.
+    destruct v; [destruct (tyerr_s B _ _ _)|destruct bare; [destruct (ret_value s2)|]]; autorewrite with frames; exact F2. }
+  intros st Est. injection Est as <-.
+  rewrite <- F2. rewrite has_ret_frames in HR.
+  assert (RV := ret_value_frames s2). rewrite has_ret_frames in RV.
+  unfold good. simpl.
+  destruct (fr_kind (frames s2)) eqn:K; try discriminate HR; repeat split; try reflexivity; try (intro X; discriminate X).
+  destruct v; [reflexivity|]. specialize (RV eq_refl).
+  destruct bare; [rewrite RV in Q; discriminate Q|discriminate Q].
+Qed.
+
+Lemma return_stmt_sound s r s' : parse_return_stmt B s = Ok r s' -> snd_s s r s'.
+Proof.
+  unfold parse_return_stmt. intro H. cbv zeta in H.
+  destruct (is_at_eol (cs (adv s))) eqn:EOL.
+  - injection H as ? ?; subst. apply (return_tail s (adv s) None true). apply SN_adv.
+  - destruct (p_toplevel B (adv s)) as [x s2| |] eqn:P; try discriminate H. apply p_toplevel_sn in P.
+    destruct x; injection H as ? ?; subst.
+    + apply (return_tail s (assert_eol s2) (Some t) false).
+      eapply SN_trans; [apply SN_adv|]. eapply SN_trans; [exact P|apply SN_assert_eol].
+    + apply (return_tail s s2 None false). eapply SN_trans; [apply SN_adv|exact P].
+Qed.
+
+Lemma condition_sn s r s' : parse_condition B s = Ok r s' -> SN s s'.
+Proof.
+  unfold parse_condition. intro H.
+  destruct (p_toplevel B s) as [c s1| |] eqn:P; try discriminate H. apply p_toplevel_sn in P.
+  destruct c; injection H as ? ?; subst; [|exact P].
+  eapply SN_trans; [exact P|]. destruct (tyerr_s B _ _ _); [intro Q; discriminate Q|apply SN_assert_eol].
+Qed.
+
+Lemma empty_stmt_sound s r s' : parse_empty_stmt s = Ok r s' -> snd_s s r s'.
+Proof.
+  unfold parse_empty_stmt. intro H.
+  destruct (ct s); try discriminate H; injection H as ? ?; subst;
+    (apply snd_s_of_SN; [|intros st E k l; injection E as <-; apply good_plain; exact I]).
+  - eapply SN_trans; apply SN_adv.
+  - apply SN_adv.
+Qed.
+
+Lemma snd_s_SN s r s' : snd_s s r s' -> SN s s'.
+Proof. intros H Q. destruct (H Q) as (A & F & _). auto. Qed.
+
+Lemma existsb_rev {A} (f : A -> bool) l : existsb f (rev l) = existsb f l.
+Proof.
+  induction l as [|x l IH]; [reflexivity|]. simpl. rewrite existsb_app, IH. simpl. rewrite orb_false_r. apply orb_comm.
+Qed.
+Lemma forallb_rev {A} (f : A -> bool) l : forallb f (rev l) = forallb f l.
+Proof.
+  induction l as [|x l IH]; [reflexivity|]. simpl. rewrite forallb_app, IH. simpl. rewrite andb_true_r. apply andb_comm.
+Qed.
+
+(* ---- the part that is open in parseStatement ---- *)
+Variable ps : pst -> PR (option stmt).
+Hypothesis HPS : forall s r s', ps s = Ok r s' -> snd_s s r s'.
+
+Lemma block_loop_sn : forall fuel els acc terms s b s', block_loop ps fuel els acc terms s = Ok b s' -> SN s s'.
+Proof.
+  induction fuel as [|f IH]; intros els acc terms s b s' H; [discriminate|]. cbn [block_loop] in H.
+  destruct (match ct s with T_END | T_EOF => true | T_ELSE => els | _ => false end);
+    [injection H as ? ?; subst; apply SN_refl|].
+  destruct (ps s) as [r s1| |] eqn:P; try discriminate H. apply HPS in P. apply snd_s_SN in P.
+  destruct r as [st|]; [destruct (terms && negb (is_empty_stmt st))|]; apply IH in H.
+  - eapply SN_trans; [exact P|]. intro Q. destruct (H Q) as [Q1 _]. discriminate Q1.
+  - eapply SN_trans; eassumption.
+  - eapply SN_trans; eassumption.
+Qed.
+
+Lemma block_loop_good : forall fuel els acc terms s b s', block_loop ps fuel els acc terms s = Ok b s' ->
+  serrs s' = [] ->
+  Forall (good (fr_kind (frames s)) (fr_loop (frames s))) acc ->
+  terms = existsb stmt_term acc -> no_dead (rev acc) = true ->
+  goodb (fr_kind (frames s)) (fr_loop (frames s)) b.
+Proof.
+  induction fuel as [|f IH]; intros els acc terms s b s' H Q Hacc Ht Hnd; [discriminate|]. cbn [block_loop] in H.
+  destruct (match ct s with T_END | T_EOF => true | T_ELSE => els | _ => false end).
+  - injection H as ? ?; subst. unfold goodb. simpl.
+    assert (F1 : forallb (stmt_ok (fr_kind (frames s')) (fr_loop (frames s'))) acc = true)
+      by (apply forallb_forall; intros x Hx; rewrite Forall_forall in Hacc; apply (Hacc x Hx)).
+    assert (F2 : forallb flags_ok_s acc = true)
+      by (apply forallb_forall; intros x Hx; rewrite Forall_forall in Hacc; apply (Hacc x Hx)).
+    rewrite !forallb_rev, !existsb_rev, F1, F2, Hnd. split; [reflexivity|]. split; [simpl; apply Bool.eqb_reflx|]. split.
+    + intro L. clear - Hacc L. induction acc as [|x acc IH]; [reflexivity|]. simpl.
+      pose proof (Forall_inv Hacc) as Hx. pose proof (Forall_inv_tail Hacc) as Hr. destruct Hx as (_ & _ & Hx & _). rewrite (Hx L), (IH Hr). reflexivity.
+    + intro K. clear - Hacc K. induction acc as [|x acc IH]; [reflexivity|]. simpl.
+      pose proof (Forall_inv Hacc) as Hx. pose proof (Forall_inv_tail Hacc) as Hr. destruct Hx as (_ & _ & _ & Hx). rewrite (Hx K), (IH Hr). reflexivity.
+  - destruct (ps s) as [r s1| |] eqn:P; try discriminate H. apply HPS in P.
+    destruct r as [st|].
+    + destruct (terms && negb (is_empty_stmt st)) eqn:TE.
+      * pose proof (block_loop_sn _ _ _ _ _ _ _ H Q) as [Q1 _]. discriminate Q1.
+      * pose proof (block_loop_sn _ _ _ _ _ _ _ H Q) as [Q1 _].
+        destruct (P Q1) as (Q0 & F1 & G). specialize (G st eq_refl).
+        rewrite <- F1. apply (IH els (st :: acc) (terms || always_terms st) s1 b s' H Q).
+        -- rewrite F1. constructor; assumption.
+        -- simpl. destruct G as (_ & G2 & _). rewrite (flags_always_terms st G2), Ht. apply orb_comm.
+        -- simpl. rewrite no_dead_app, Hnd, existsb_rev, <- Ht. simpl.
+           destruct terms; [|reflexivity]. simpl in TE. destruct (is_empty_stmt st); [reflexivity|discriminate TE].
+    + pose proof (block_loop_sn _ _ _ _ _ _ _ H Q) as [Q1 _].
+      destruct (P Q1) as (Q0 & F1 & _). rewrite <- F1. apply (IH els acc terms s1 b s' H Q); rewrite ?F1; assumption.
+Qed.
+
+Lemma block_with_sound fuel els s b s' : parse_block_with ps fuel els s = Ok b s' ->
+  serrs s' = [] -> serrs s = [] /\ frames s' = frames s /\ goodb (fr_kind (frames s)) (fr_loop (frames s)) b.
+Proof.
+  unfold parse_block_with. intros H Q.
+  destruct (block_loop ps fuel els [] false s) as [b1 s1| |] eqn:P; try discriminate H.
+  injection H as ? ?; subst.
+  assert (Q1 : serrs s1 = []).
+  { apply serrs_validate_scope in Q. destruct b as [[|x l] t]; [discriminate Q|exact Q]. }
+  destruct (block_loop_sn _ _ _ _ _ _ _ P Q1) as [Q0 F1]. split; [exact Q0|]. split.
+  { rewrite frames_validate_scope. destruct b as [[|x l] t]; autorewrite with frames; exact F1. }
+  apply (block_loop_good _ _ _ _ _ _ _ P Q1); [constructor|reflexivity|reflexivity].
+Qed.
+
+Lemma frames_push_inherit l s :
+  frames (push_inherit l s) =
+  (match scs s with sc :: _ => sc_ret sc | [] => false end, match scs s with sc :: _ => sc_retval sc | [] => false end, l) :: frames s.
+Proof. reflexivity. Qed.
+Lemma kind_push_inherit l s : fr_kind (frames (push_inherit l s)) = fr_kind (frames s).
+Proof. rewrite frames_push_inherit. unfold frames, fr_kind. destruct (scs s) as [|sc r]; simpl; [reflexivity|]. unfold frame_of. destruct (sc_ret sc), (sc_retval sc); reflexivity. Qed.
+Lemma loop_push_inherit l s : fr_loop (frames (push_inherit l s)) = l || fr_loop (frames s).
+Proof. rewrite frames_push_inherit. reflexivity. Qed.
+Lemma tl_frames_push_inherit l s : tl (frames (push_inherit l s)) = frames s.
+Proof. reflexivity. Qed.
+
+Lemma for_stmt_sound fuel s r s' : parse_for_stmt B ps fuel s = Ok r s' -> snd_s s r s'.
+Proof.
+  unfold parse_for_stmt. intro H. cbv zeta in H.
+  set (s1 := adv (push_inherit true s)) in H.
+  assert (N1 : serrs s1 = [] -> serrs s = []) by (unfold s1; intro Q; autorewrite with serrs in Q; exact Q).
+  assert (F1 : frames s1 = frames (push_inherit true s)) by reflexivity.
+  match type of H with (match ?lv with _ => _ end) = _ => set (LV := lv) in H end.
+  assert (NL : serrs (snd LV) = [] -> serrs s1 = [] /\ frames (snd LV) = frames s1).
+  { unfold LV. destruct (ct s1); simpl; try (intro Q; solve [auto]).
+    destruct (validate_var_decl B _ _ false s1) as [ok s2] eqn:V.
+    destruct ok; simpl; intro Q.
+    - autorewrite with serrs in Q.
+      destruct (SN_passert T_DECLARE (adv (scope_set (tlit (cur (cs s1))) (pos s1) s2)) Q) as [Q3 _]. clear Q. rename Q3 into Q. autorewrite with serrs in Q.
+      destruct (serrs_validate_var_decl _ _ _ _ _ _ _ V Q) as [_ E2]. subst s2. split; [exact Q|].
+      autorewrite with frames. reflexivity.
+    - destruct (serrs_validate_var_decl _ _ _ _ _ _ _ V Q) as [E _]. discriminate E. }
+  destruct LV as [[v|] s4]; simpl in NL.
+  2:{ injection H as ? ?; subst. intro Q. autorewrite with serrs in Q. destruct (NL Q) as [Q1 F4]. split; [auto|]. split.
+      - autorewrite with frames. rewrite F4, F1. apply tl_frames_push_inherit.
+      - intros st E. discriminate E. }
+  destruct (passert T_RANGE s4) as [ok s5] eqn:A.
+  destruct ok; cbn [negb] in H.
+  2:{ injection H as ? ?; subst. intro Q. autorewrite with serrs in Q. destruct (passert_ne _ _ _ _ A Q) as [E _]. discriminate E. }
+  destruct (p_expr_list B (adv s5)) as [ns s7| |] eqn:P; try discriminate H. apply p_expr_list_sn in P.
+  destruct (match ns with Some l => l | None => [] end) as [|n more].
+  { injection H as ? ?; subst. intro Q. autorewrite with serrs in Q. discriminate Q. }
+  destruct (_ && _).
+  { injection H as ? ?; subst. intro Q. autorewrite with serrs in Q. discriminate Q. }
+  match type of H with context[parse_block_with ps fuel false ?x] => set (sb := x) in H end.
+  destruct (parse_block_with ps fuel false sb) as [b s10| |] eqn:PB; try discriminate H.
+  injection H as ? ?; subst. intro Q. autorewrite with serrs in Q.
+  destruct (SN_finish_end s10 Q) as [Q10 F10].
+  destruct (block_with_sound _ _ _ _ _ PB Q10) as (Qb & Fb & Gb).
+  assert (Qs8 : serrs (assert_eol s7) = [] /\ frames sb = frames s7).
+  { unfold sb in Qb |- *. autorewrite with serrs in Qb. destruct (tyerr_s B _ _ _); [discriminate Qb|]. split; [exact Qb|].
+    autorewrite with frames. reflexivity. }
+  destruct Qs8 as [Q8 Fsb]. destruct (SN_assert_eol s7 Q8) as [Q7 _].
+  destruct (P Q7) as [Q6 F7]. autorewrite with serrs in Q6.
+  destruct (passert_ne _ _ _ _ A Q6) as [_ E5]. subst s5. destruct (NL Q6) as [Q1 F4].
+  split; [auto|]. split.
+  - autorewrite with frames. rewrite F10, Fb, Fsb, F7. autorewrite with frames. rewrite F4, F1. apply tl_frames_push_inherit.
+  - intros st E. injection E as <-.
+    assert (Fsb' : frames sb = frames (push_inherit true s)).
+    { rewrite Fsb, F7. autorewrite with frames. rewrite F4, F1. reflexivity. }
+    rewrite Fsb', kind_push_inherit, loop_push_inherit in Gb. simpl in Gb.
+    destruct Gb as (G1 & G2 & _). unfold good. simpl. repeat split; auto.
+Qed.
+
+Lemma while_stmt_sound fuel s r s' : parse_while_stmt B ps fuel s = Ok r s' -> snd_s s r s'.
+Proof.
+  unfold parse_while_stmt. intro H. cbv zeta in H.
+  destruct (parse_condition B (push_inherit true (adv s))) as [c s2| |] eqn:P; try discriminate H. apply condition_sn in P.
+  destruct (parse_block_with ps fuel false (apnl s2)) as [b s3| |] eqn:PB; try discriminate H.
+  injection H as ? ?; subst. intro Q. autorewrite with serrs in Q.
+  destruct (SN_finish_end s3 Q) as [Q3 F3].
+  destruct (block_with_sound _ _ _ _ _ PB Q3) as (Qb & Fb & Gb). autorewrite with serrs frames in Qb, Fb, Gb.
+  destruct (P Qb) as [Q1 F2]. autorewrite with serrs in Q1.
+  split; [exact Q1|]. split.
+  - autorewrite with frames. rewrite F3, Fb, F2. apply (tl_frames_push_inherit true (adv s)).
+  - intros st E. injection E as <-.
+    rewrite F2, kind_push_inherit, loop_push_inherit in Gb. autorewrite with frames in Gb. simpl in Gb.
+    destruct Gb as (G1 & G2 & _). unfold good. simpl. repeat split; auto.
+Qed.
+
+Lemma if_cond_block_sound fuel s cb s' : parse_if_cond_block B ps fuel s = Ok cb s' ->
+  serrs s' = [] -> serrs s = [] /\ frames s' = frames s /\ goodb (fr_kind (frames s)) (fr_loop (frames s)) (snd cb).
+Proof.
+  unfold parse_if_cond_block. intros H Q. cbv zeta in H.
+  destruct (parse_condition B (adv (push_inherit false s))) as [c s2| |] eqn:P; try discriminate H. apply condition_sn in P.
+  destruct (parse_block_with ps fuel true (apnl s2)) as [b s3| |] eqn:PB; try discriminate H.
+  injection H as ? ?; subst. autorewrite with serrs in Q.
+  destruct (block_with_sound _ _ _ _ _ PB Q) as (Qb & Fb & Gb). autorewrite with serrs frames in Qb, Fb, Gb.
+  destruct (P Qb) as [Q1 F2]. autorewrite with serrs in Q1.
+  split; [exact Q1|]. split.
+  - autorewrite with frames. rewrite Fb, F2. autorewrite with frames. apply (tl_frames_push_inherit false s).
+  - simpl. rewrite F2 in Gb. autorewrite with frames in Gb. rewrite kind_push_inherit, loop_push_inherit in Gb. exact Gb.
+Qed.
+
+Lemma else_if_loop_sn : forall fuel bfuel acc s r s', else_if_loop B ps fuel bfuel acc s = Ok r s' -> SN s s'.
+Proof.
+  induction fuel as [|f IH]; intros bfuel acc s r s' H; [discriminate|]. cbn [else_if_loop] in H.
+  destruct (ct s); try (injection H as ? ?; subst; apply SN_refl).
+  destruct (ttype (peek (cs s))); try (injection H as ? ?; subst; apply SN_refl).
+  destruct (parse_if_cond_block B ps bfuel (adv s)) as [cb s1| |] eqn:P; try discriminate H.
+  apply IH in H. intro Q. destruct (H Q) as [Q1 F1].
+  destruct (if_cond_block_sound _ _ _ _ P Q1) as (Q0 & F0 & _). autorewrite with serrs frames in Q0, F0.
+  split; [exact Q0|congruence].
+Qed.
+
+Lemma else_if_loop_good : forall fuel bfuel acc s r s', else_if_loop B ps fuel bfuel acc s = Ok r s' ->
+  serrs s' = [] ->
+  Forall (fun cb => goodb (fr_kind (frames s)) (fr_loop (frames s)) (snd cb)) acc ->
+  Forall (fun cb => goodb (fr_kind (frames s)) (fr_loop (frames s)) (snd cb)) r.
+Proof.
+  induction fuel as [|f IH]; intros bfuel acc s r s' H Q Hacc; [discriminate|]. cbn [else_if_loop] in H.
+  assert (D : Ok (rev acc) s = Ok r s' -> Forall (fun cb => goodb (fr_kind (frames s)) (fr_loop (frames s)) (snd cb)) r).
+  { intro E. injection E as ? ?; subst. apply Forall_rev. exact Hacc. }
+  destruct (ct s); try exact (D H).
+  destruct (ttype (peek (cs s))); try exact (D H).
+  destruct (parse_if_cond_block B ps bfuel (adv s)) as [cb s1| |] eqn:P; try discriminate H.
+  destruct (else_if_loop_sn _ _ _ _ _ _ H Q) as [Q1 _].
+  destruct (if_cond_block_sound _ _ _ _ P Q1) as (Q0 & F0 & G). autorewrite with frames in F0, G.
+  rewrite <- F0. apply (IH bfuel (cb :: acc) s1 r s' H Q). rewrite F0. constructor; assumption.
+Qed.
+
+Lemma good_if k l brs els :
+  Forall (fun cb : option tree * block => goodb k l (snd cb)) brs ->
+  match els with Some e => goodb k l e | None => True end ->
+  good k l (SIf brs els).
+Proof.
+  intros Hb He. unfold good. simpl.
+  assert (F1 : forallb (fun cb : option tree * block => block_ok k l (snd cb)) brs = true)
+    by (apply forallb_forall; intros x Hx; rewrite Forall_forall in Hb; apply (Hb x Hx)).
+  assert (F2 : forallb (fun cb : option tree * block => flags_ok_b (snd cb)) brs = true)
+    by (apply forallb_forall; intros x Hx; rewrite Forall_forall in Hb; apply (Hb x Hx)).
+  rewrite F1, F2. destruct els as [e|].
+  - destruct He as (E1 & E2 & E3 & E4). rewrite E1, E2. split; [reflexivity|]. split; [reflexivity|]. split.
+    + intro L. rewrite (E3 L). f_equal.
+      clear - Hb L. induction brs as [|x brs IH]; [reflexivity|]. simpl.
+      pose proof (Forall_inv Hb) as Hx. pose proof (Forall_inv_tail Hb) as Hr. destruct Hx as (_ & _ & Hx & _). rewrite (Hx L), (IH Hr). reflexivity.
+    + intro K. rewrite (E4 K). reflexivity.
+  - repeat split; reflexivity.
+Qed.
+
+Lemma if_stmt_sound fuel s r s' : parse_if_stmt B ps fuel s = Ok r s' -> snd_s s r s'.
+Proof.
+  unfold parse_if_stmt. intro H.
+  destruct (parse_if_cond_block B ps fuel s) as [cb s1| |] eqn:P1; try discriminate H.
+  destruct (else_if_loop B ps (S (pos s1)) fuel [cb] s1) as [brs s2| |] eqn:P2; try discriminate H.
+  assert (D : forall els s3, Ok (Some (SIf brs els)) (finish_end s3) = Ok r s' ->
+              SN s2 s3 -> (serrs s3 = [] -> match els with Some e => goodb (fr_kind (frames s2)) (fr_loop (frames s2)) e | None => True end) ->
+              snd_s s r s').
+  { intros els s3 E N3 G3. injection E as ? ?; subst. intro Q.
+    destruct (SN_finish_end s3 Q) as [Q3 F3]. destruct (N3 Q3) as [Q2 F32].
+    destruct (else_if_loop_sn _ _ _ _ _ _ P2 Q2) as [Q1 F21].
+    destruct (if_cond_block_sound _ _ _ _ P1 Q1) as (Q0 & F10 & G1).
+    split; [exact Q0|]. split; [congruence|].
+    intros st Est. injection Est as <-. apply good_if.
+    - rewrite <- F10. apply (else_if_loop_good _ _ _ _ _ _ P2 Q2). constructor; [|constructor]. rewrite F10. exact G1.
+    - specialize (G3 Q3). rewrite F21, F10 in G3. exact G3. }
+  destruct (ct s2) eqn:T; try (apply (D None s2 H); [apply SN_refl|auto]).
+  cbv zeta in H.
+  destruct (parse_block_with ps fuel false (push_inherit false (apnl (assert_eol (adv s2))))) as [b s4| |] eqn:PB; try discriminate H.
+  apply (D (Some b) (pop_scope s4) H).
+  - intro Q. autorewrite with serrs in Q. destruct (block_with_sound _ _ _ _ _ PB Q) as (Qb & Fb & _).
+    autorewrite with serrs in Qb. destruct (SN_assert_eol _ Qb) as [Qa _]. autorewrite with serrs in Qa.
+    split; [exact Qa|]. autorewrite with frames. rewrite Fb. rewrite frames_push_inherit. simpl. autorewrite with frames. reflexivity.
+  - intro Q. autorewrite with serrs in Q. destruct (block_with_sound _ _ _ _ _ PB Q) as (Qb & Fb & Gb).
+    rewrite kind_push_inherit, loop_push_inherit in Gb. autorewrite with frames in Gb. exact Gb.
+Qed.
+
+Lemma statement_body_sound fuel s r s' : parse_statement_body B ps fuel s = Ok r s' -> snd_s s r s'.
+Proof.
+  unfold parse_statement_body. intro H.
+  destruct (ct s);
+    try (injection H as ? ?; subst; intro Q; autorewrite with serrs in Q; discriminate Q).
+  - apply empty_stmt_sound in H. exact H.
+  - destruct (ttype (peek (cs s)));
+      try (apply assign_stmt_sound in H; exact H); try (apply typed_decl_stmt_sound in H; exact H);
+      try (apply inferred_decl_stmt_sound in H; exact H);
+      (destruct (is_func (tlit (cur (cs s))) s); [apply call_stmt_sound in H; exact H|]);
+      try (apply assign_stmt_sound in H; exact H);
+      (injection H as ? ?; subst; intro Q; autorewrite with serrs in Q; discriminate Q).
+  - injection H as ? ?; subst. apply snd_s_of_SN; [apply SN_adv|intros st E; discriminate E].
+  - apply empty_stmt_sound in H. exact H.
+  - apply if_stmt_sound in H. exact H.
+  - apply return_stmt_sound in H. exact H.
+  - apply for_stmt_sound in H. exact H.
+  - apply while_stmt_sound in H. exact H.
+  - apply break_stmt_sound in H. exact H.
+Qed.
+
+End StmtSound.
+
+Lemma Ok_inj {A} (a a' : A) (s s' : pst) : Ok a s = Ok a' s' -> a' = a /\ s' = s.
+Proof. intro H. injection H as ? ?; subst; auto. Qed.
+
+Section ProgramSound.
+Variable B : benv.
+
+Theorem stmt_sound : forall fuel s r s', parse_statement B fuel s = Ok r s' -> snd_s s r s'.
+Proof.
+  induction fuel as [|f IH]; intros s r s' H; [discriminate|]. cbn [parse_statement] in H.
+  apply (statement_body_sound B (parse_statement B f) IH) in H. exact H.
+Qed.
+
+Lemma parse_block_sound fuel s b s' : parse_block B fuel s = Ok b s' ->
+  serrs s' = [] -> serrs s = [] /\ frames s' = frames s /\ goodb (fr_kind (frames s)) (fr_loop (frames s)) b.
+Proof. unfold parse_block. apply block_with_sound. apply stmt_sound. Qed.
+
+Lemma add_params_sn l : forall s, SN s (add_params B l s).
+Proof.
+  unfold add_params. induction l as [|x l IH]; intro s; simpl; [apply SN_refl|].
+  eapply SN_trans; [|apply IH]. eapply SN_trans; [apply (SN_vvd B (fst x) (snd x) true s)|apply SN_scope_set].
+Qed.
+
+Lemma on_params_loop_sn : forall fuel acc s r s', on_params_loop B fuel acc s = Ok r s' -> SN s s'.
+Proof.
+  induction fuel as [|f IH]; intros acc s r s' H; [discriminate|]. cbn [on_params_loop] in H.
+  destruct (is_at_eol (cs s)); [injection H as ? ?; subst; apply SN_refl|].
+  destruct (parse_typed_decl B (snd (passert T_IDENT s))) as [d s1| |] eqn:P; try discriminate H.
+  apply typed_decl_sn in P. apply IH in H. eapply SN_trans; [apply SN_passert|]. eapply SN_trans; eassumption.
+Qed.
+
+Lemma add_event_params_sn ps : forall ex s, SN s (add_event_params B ps ex s).
+Proof.
+  induction ps as [|[[n p] t] ps IH]; intros ex s; simpl; [apply SN_refl|].
+  destruct ex as [|e ex]; [apply SN_refl|].
+  eapply SN_trans; [|apply IH]. eapply SN_trans; [|apply SN_scope_set].
+  eapply SN_trans; [apply (SN_vvd B n p true s)|].
+  destruct t as [t'|]; [destruct (ty_eqb t' e); [apply SN_refl|apply SN_err']|apply SN_refl].
+Qed.
+
+Definition top_frames : list (bool * bool * bool) := [(false, false, false)].
+
+Lemma func_sound fuel s r s' : parse_func B fuel s = Ok r s' ->
+  serrs s' = [] -> serrs s = [] /\ frames s' = frames s /\ (frames s = top_frames -> forall st, r = Some st -> good KTop false st /\ stmt_term st = false).
+Proof.
+  unfold parse_func. intros H Q. cbv zeta in H.
+  match type of H with context[add_params B (fi_params ?f)] => set (fi := f) in H end.
+  match type of H with context[parse_block B fuel ?x] => set (s3 := x) in H end.
+  destruct (parse_block B fuel s3) as [b s4| |] eqn:PB; try discriminate H.
+  assert (N3 : serrs s3 = [] -> serrs s = [] /\ True).
+  { unfold s3. intro Q'. destruct (add_params_sn (fi_params fi) _ Q') as [Q'' _]. autorewrite with serrs in Q''. auto. }
+  assert (F3 : serrs s3 = [] -> frames s3 = (true, fi_ret fi, false) :: frames s).
+  { intro Q3. unfold s3. destruct (add_params_sn (fi_params fi) (push_scope true (fi_ret fi) false (apnl (adv s))) Q3) as [_ F].
+    rewrite F. autorewrite with frames. reflexivity. }
+  destruct (negb _).
+  { injection H as ? ?; subst. autorewrite with serrs in Q.
+    destruct (parse_block_sound _ _ _ _ PB Q) as (Q3 & F4 & _). destruct (N3 Q3) as [Q0 _].
+    split; [exact Q0|]. split; [autorewrite with frames; rewrite F4, (F3 Q3); reflexivity|intros _ st E; discriminate E]. }
+  destruct (mem_str _ _).
+  { injection H as ? ?; subst. autorewrite with serrs in Q. discriminate Q. }
+  apply Ok_inj in H as [-> ->].
+  change (serrs (finish_end (if fi_ret fi && negb (block_terms b) then serr K_missing_return s4 else s4)) = []) in Q.
+  destruct (SN_finish_end _ Q) as [Q5 F5].
+  destruct (fi_ret fi && negb (block_terms b)) eqn:MR; [discriminate Q5|].
+  destruct (parse_block_sound _ _ _ _ PB Q5) as (Q3 & F4 & Gb). destruct (N3 Q3) as [Q0 _].
+  split; [exact Q0|]. split.
+  { rewrite frames_pop_scope.
+    change (tl (frames (finish_end s4)) = frames s). rewrite F5, F4, (F3 Q3). reflexivity. }
+  intros FT st E. injection E as <-. split; [|reflexivity].
+  rewrite (F3 Q3), FT in Gb. unfold good. simpl.
+  destruct Gb as (G1 & G2 & G3 & _).
+  assert (K : fr_kind ((true, fi_ret fi, false) :: top_frames) = (if fi_ret fi then KFun else KProc)) by (destruct (fi_ret fi); reflexivity).
+  rewrite K in G1. change (fr_loop ((true, fi_ret fi, false) :: top_frames)) with false in *.
+  rewrite G1, G2. repeat split; try reflexivity.
+  destruct (fi_ret fi); [|reflexivity]. simpl in MR.
+  rewrite <- (G3 eq_refl), <- (flags_block b G2). destruct (block_terms b); [reflexivity|discriminate MR].
+Qed.
+
+Lemma event_handler_sound fuel s r s' : parse_event_handler B fuel s = Ok r s' ->
+  serrs s' = [] -> serrs s = [] /\ frames s' = frames s /\ (frames s = top_frames -> forall st, r = Some st -> good KTop false st /\ stmt_term st = false).
+Proof.
+  unfold parse_event_handler. intros H Q. cbv zeta in H.
+  destruct (passert T_IDENT (adv s)) as [ok s2] eqn:A.
+  destruct ok; cbn [negb] in H.
+  2:{ injection H as ? ?; subst. autorewrite with serrs in Q. destruct (passert_ne _ _ _ _ A Q) as [E _]. discriminate E. }
+  match type of H with context[on_params_loop B _ [] (adv ?x)] => set (s3 := x) in H end.
+  destruct (on_params_loop B (S (pos s3)) [] (adv s3)) as [params s4| |] eqn:PL; try discriminate H.
+  apply on_params_loop_sn in PL.
+  match type of H with context[parse_block B fuel ?x] => set (s6 := x) in H end.
+  destruct (parse_block B fuel s6) as [b s7| |] eqn:PB; try discriminate H.
+  injection H as ? ?; subst. autorewrite with serrs in Q.
+  destruct (SN_finish_end s7 Q) as [Q7 F7].
+  destruct (parse_block_sound _ _ _ _ PB Q7) as (Q6 & F6 & Gb).
+  assert (N6 : (serrs s6 = [] -> serrs (apnl s4) = [] /\ True) /\ (serrs s6 = [] -> frames s6 = (true, false, false) :: frames (apnl s4))).
+  { unfold s6. destruct params as [|d ds]; [split; [intro Q'; autorewrite with serrs frames in *; auto|intros _; reflexivity]|].
+    destruct (lookup_ev _ _) as [ex|]; [|split; [intro Q'; autorewrite with serrs frames in *; auto|intros _; reflexivity]].
+    split.
+    - intro Q'. destruct (add_event_params_sn (d :: ds) ex _ Q') as [Q'' _].
+      destruct (Nat.eqb _ _); autorewrite with serrs in Q''; try discriminate Q''; (split; [rewrite serrs_apnl; exact Q''|exact I]).
+    - intro Q'. destruct (add_event_params_sn (d :: ds) ex _ Q') as [Q'' F]. rewrite F. destruct (Nat.eqb _ _); reflexivity. }
+  destruct N6 as [N6 F6'].
+  destruct (N6 Q6) as [Q4' F64]. autorewrite with serrs in Q4'. destruct (PL Q4') as [Q3' F43]. autorewrite with serrs in Q3'.
+  assert (Q2 : serrs s2 = [] /\ frames s3 = frames s2).
+  { unfold s3 in Q3' |- *. destruct (mem_str _ _); [discriminate Q3'|]. destruct (lookup_ev _ _); [split; [exact Q3'|reflexivity]|discriminate Q3']. }
+  destruct Q2 as [Q2 F32]. destruct (passert_ne _ _ _ _ A Q2) as [_ E2]. subst s2. autorewrite with serrs in Q2.
+  split; [exact Q2|]. split.
+  { autorewrite with frames. rewrite F7, F6, (F6' Q6). simpl. autorewrite with frames. rewrite F43. autorewrite with frames. rewrite F32. reflexivity. }
+  intros FT st E. injection E as <-. split; [|reflexivity].
+  rewrite (F6' Q6) in Gb. autorewrite with frames in Gb. rewrite F43 in Gb. autorewrite with frames in Gb. rewrite F32 in Gb. autorewrite with frames in Gb. rewrite FT in Gb.
+  destruct Gb as (G1 & G2 & _). unfold good. simpl. simpl in G1. rewrite G1, G2. repeat split; reflexivity.
+Qed.
+
+Lemma program_loop_sn : forall fuel acc terms s p s', program_loop B fuel acc terms s = Ok p s' -> SN s s'.
+Proof.
+  induction fuel as [|f IH]; intros acc terms s p s' H; [discriminate|]. cbn [program_loop] in H.
+  assert (DS : (pdo (r, s1) <- parse_statement B f s;
+        match r with
+        | None => program_loop B f acc terms s1
+        | Some st => if terms then program_loop B f acc terms (serr_at K_unreachable (pos s) s1)
+                     else program_loop B f (st :: acc) (always_terms st) s1
+        end) = Ok p s' -> SN s s').
+  { intro H1. destruct (parse_statement B f s) as [r s1| |] eqn:P; try discriminate H1.
+    apply stmt_sound in P. apply snd_s_SN in P.
+    destruct r as [st|]; [destruct terms|]; apply IH in H1.
+    - eapply SN_trans; [exact P|]. intro Q. destruct (H1 Q) as [Q1 _]. discriminate Q1.
+    - eapply SN_trans; eassumption.
+    - eapply SN_trans; eassumption. }
+  destruct (ct s); try exact (DS H).
+  - injection H as ? ?; subst. apply SN_refl.
+  - destruct (parse_func B f s) as [r s1| |] eqn:P; try discriminate H. apply IH in H.
+    intro Q. destruct (H Q) as [Q1 F1]. destruct (func_sound _ _ _ _ P Q1) as (Q0 & F0 & _). split; [exact Q0|congruence].
+  - destruct (parse_event_handler B f s) as [r s1| |] eqn:P; try discriminate H. apply IH in H.
+    intro Q. destruct (H Q) as [Q1 F1]. destruct (event_handler_sound _ _ _ _ P Q1) as (Q0 & F0 & _). split; [exact Q0|congruence].
+Qed.
+
+Lemma program_loop_good : forall fuel acc terms s p s', program_loop B fuel acc terms s = Ok p s' ->
+  serrs s' = [] -> frames s = top_frames ->
+  Forall (good KTop false) acc -> terms = existsb stmt_term acc -> no_dead (rev acc) = true ->
+  structure_ok p = true.
+Proof.
+  induction fuel as [|f IH]; intros acc terms s p s' H Q FT Hacc Ht Hnd; [discriminate|]. cbn [program_loop] in H.
+  assert (DS : (pdo (r, s1) <- parse_statement B f s;
+        match r with
+        | None => program_loop B f acc terms s1
+        | Some st => if terms then program_loop B f acc terms (serr_at K_unreachable (pos s) s1)
+                     else program_loop B f (st :: acc) (always_terms st) s1
+        end) = Ok p s' -> structure_ok p = true).
+  { intro H1. destruct (parse_statement B f s) as [r s1| |] eqn:P; try discriminate H1. apply stmt_sound in P.
+    destruct r as [st|]; [destruct terms eqn:TT|].
+    - destruct (program_loop_sn _ _ _ _ _ _ H1 Q) as [Q1 _]. discriminate Q1.
+    - destruct (program_loop_sn _ _ _ _ _ _ H1 Q) as [Q1 _]. destruct (P Q1) as (Q0 & F1 & G). specialize (G st eq_refl).
+      rewrite FT in G. change (fr_kind top_frames) with KTop in G. change (fr_loop top_frames) with false in G.
+      apply (IH _ _ _ _ _ H1 Q); [congruence|constructor; assumption| |].
+      + simpl. destruct G as (_ & G2 & _). rewrite (flags_always_terms st G2), <- Ht. rewrite orb_false_r. reflexivity.
+      + simpl. rewrite no_dead_app, Hnd, existsb_rev, <- Ht. reflexivity.
+    - destruct (program_loop_sn _ _ _ _ _ _ H1 Q) as [Q1 _]. destruct (P Q1) as (Q0 & F1 & _).
+      apply (IH _ _ _ _ _ H1 Q); [congruence|assumption|assumption|assumption]. }
+  assert (DF : forall r s1, (serrs s1 = [] -> serrs s = [] /\ frames s1 = frames s /\ (frames s = top_frames -> forall st, r = Some st -> good KTop false st /\ stmt_term st = false)) ->
+               program_loop B f (match r with Some st => st :: acc | None => acc end) terms s1 = Ok p s' -> structure_ok p = true).
+  { intros r s1 S1 H1. destruct (program_loop_sn _ _ _ _ _ _ H1 Q) as [Q1 _]. destruct (S1 Q1) as (Q0 & F1 & G).
+    apply (IH _ _ _ _ _ H1 Q); [congruence| | |].
+    - destruct r as [st|]; [constructor; [apply (G FT st eq_refl)|assumption]|assumption].
+    - destruct r as [st|]; [|assumption]. simpl. destruct (G FT st eq_refl) as (_ & G1). rewrite G1. exact Ht.
+    - destruct r as [st|]; [|assumption]. simpl. rewrite no_dead_app, Hnd, existsb_rev, <- Ht.
+      destruct terms; [|reflexivity]. simpl.
+      (* a function or handler after a terminating top-level statement: there is no terminating statement at top level *)
+      exfalso. clear - Hacc Ht. symmetry in Ht. apply existsb_exists in Ht as (x & Hin & Hx). rewrite Forall_forall in Hacc.
+      destruct (Hacc x Hin) as (_ & _ & G3 & G4). rewrite (G3 eq_refl), (G4 eq_refl) in Hx. discriminate Hx. }
+  destruct (ct s); try exact (DS H).
+  - injection H as ? ?; subst. unfold structure_ok.
+    assert (F1 : forallb (stmt_ok KTop false) acc = true)
+      by (apply forallb_forall; intros x Hx; rewrite Forall_forall in Hacc; apply (Hacc x Hx)).
+    rewrite forallb_rev, F1, Hnd. reflexivity.
+  - destruct (parse_func B f s) as [r s1| |] eqn:P; try discriminate H. apply (DF r s1); [apply (func_sound _ _ _ _ P)|exact H].
+  - destruct (parse_event_handler B f s) as [r s1| |] eqn:P; try discriminate H. apply (DF r s1); [apply (event_handler_sound _ _ _ _ P)|exact H].
+Qed.
+
+End ProgramSound.
+
+(* ================================================================ *)
+(** * Accept implies the structural rules                            *)
+
+Lemma map_rev_nil {A C} (f : A -> C) l : map f (rev l) = [] -> l = [].
+Proof. destruct l as [|x l]; [reflexivity|]. simpl. rewrite map_app. simpl. intro H. destruct (map f (rev l)); discriminate H. Qed.
+
+Theorem accept_structure B raw eof p : parse B raw eof = Accept p -> structure_ok p = true.
+Proof.
+  unfold parse.
+  destruct (signatures B tEOF _ _) as [u s1| |]; try discriminate.
+  destruct (_ ++ _) as [|e0 es0]; [|discriminate].
+  match goal with |- context[program_loop B ?fu [] false ?s2] => destruct (program_loop B fu [] false s2) as [prog s3| |] eqn:PL end; try discriminate.
+  destruct (map _ (rev (errs (cs (validate_scope s3))))) as [|e1 es1] eqn:EM; [|discriminate].
+  intro H. injection H as <-.
+  apply map_rev_nil in EM.
+  apply (program_loop_good B _ _ _ _ _ _ PL); [apply serrs_validate_scope; exact EM|reflexivity|constructor|reflexivity|reflexivity].
+Qed.
+
+(* the statement loop ends at the end of the input only: an accepted program has consumed every token *)
+Lemma program_loop_ends B : forall fuel acc terms s p s', program_loop B fuel acc terms s = Ok p s' -> ct s' = T_EOF.
+Proof.
+  induction fuel as [|f IH]; intros acc terms s p s' H; [discriminate|]. cbn [program_loop] in H.
+  destruct (ct s) eqn:T;
+    try (destruct (parse_statement B f s) as [r s1| |]; try discriminate H;
+         destruct r as [st|]; [destruct terms|]; apply IH in H; exact H).
+  - injection H as ? ?; subst. exact T.
+  - destruct (parse_func B f s) as [r s1| |]; try discriminate H. apply IH in H. exact H.
+  - destruct (parse_event_handler B f s) as [r s1| |]; try discriminate H. apply IH in H. exact H.
+Qed.
